@@ -67,6 +67,9 @@ GP.build("C01", "Every agent message is answered exactly once",
            "progress: the measure `mu` (Proofs/CoordMeasure.v: weighted count of unread input, queued messages, handler tasks by wait state, queued responses and pending task events) strictly decreases with EVERY task step, from every state satisfying the invariant"),
           ("C01_no_livelock", "bounded_internal_runs_reachable",
            "so from every reachable state at most `mu s` task steps can happen before the coordinator is idle again or new input arrives: an answer whose barrier is met is delivered after finitely many steps (with C01_quiescent / C01_idle_unmet: at rest, nothing is unanswered except behind an unmet barrier)"),
+          ("C01_answer_fits", "h_wake_answer",
+           "the answer fits the question: a handler step puts at most one item on a response queue, on the queue of the connection it works for, and the item fits the request it was spawned for (JoinGame: CREATED / BAD_REQUEST; ResetGame: RESET_DONE / BAD_REQUEST; game action: OK / FORBIDDEN / BAD_REQUEST; QuitGame: close)"),
+          ("C01_keeps_kind", "h_wake_keeps_kind", "and a handler that is held at a barrier keeps the kind of its request, so the eventual answer fits too"),
           ("C01_parked_have_agents", "parked_have_agents_reachable", "a handler parked at a barrier always belongs to a registered agent (its continuation cannot fail)"),
           ("C01_garbage_answered", "reject_garbage", "an unparsable message is answered with BAD_REQUEST by the dispatcher"),
           ("C01_dispatcher_alive", "dispatcher_alive", "the dispatcher can always take the next message")],
@@ -86,6 +89,7 @@ GP.build("C09", "Bad or out-of-order messages are rejected without any effect on
          [("C09_garbage", "reject_garbage", "garbage: BAD_REQUEST from the dispatcher; agents, world, events, trajectory files, handlers and all other connections unchanged"),
           ("C09_reject", "reject_bad_request", "every other bad request: its handler answers BAD_REQUEST ..."),
           ("C09_frame", "respond_frame", "... and answering changes nothing but the sender's response queue and the finished handler"),
+          ("C09_dispatcher_answers", "dispatch1_answer", "the dispatcher itself answers only unparsable messages: BAD_REQUEST on the sender's queue, nothing else"),
           ("C09_others", "h_start_others", "whatever the message, the handler working for address c0 leaves the record of every other agent untouched"),
           ("C09_world", "h_start_world_frame", "and only game actions and joins can touch the world or the trajectory files"),
           ("C09_alive", "dispatcher_alive", "the dispatcher keeps serving"),
